@@ -37,7 +37,7 @@ def case_st(draw):
             c = list(cents[i])
         else:
             c = [draw(st.floats(-4, 4, allow_nan=False)) for _ in range(3)]
-        if c not in nuc:
+        if all(sum((a - b) ** 2 for a, b in zip(c, o)) > 1e-6 for o in nuc):  # pairwise distinct (>= 1e-3 bohr apart)
             nuc.append(c)
     Z = []
     for _ in nuc:
@@ -124,7 +124,8 @@ def judge(case):
         return v.fail(f"electrostatic_potential shape {got.shape}, expected {want.shape}")
     tol = TOL * (nsc + esc) + 1e-300
     fin = np.isfinite(want)
-    bad_inf = judged & ~fin & ~((got == want))
+    # (a point that coincides with two nuclei of opposite sign gives inf - inf on both sides: nan counts as agreement)
+    bad_inf = judged & ~fin & ~((got == want) | (np.isnan(got) & np.isnan(want)))
     if bad_inf.any():
         i = int(np.argmax(bad_inf))
         return v.fail(f"point {P[i].tolist()} on a nucleus (threshold {thr}): expected {want[i]}, got {got[i]}")
